@@ -11,6 +11,7 @@ CONSTANTS
   MaxClose = 0
   MaxDeliveryFail = 0
   Unbuffered = TRUE
+  Script <- NoScript
   RecordH = "off"
 VIEW View
 INVARIANTS TypeOK BufferAccounting BoxHistory NoCrossTalk BlamesSender FatalResults NoLostWakeup NotifyConsistent
